@@ -3,9 +3,12 @@ import math
 
 from harness import dtwgen
 
-COQ_FILES = ["theories/BandTie.v", "theories/DtwProps.v", "theories/Bounds.v", "props/C10.v"]
+COQ_FILES = ["theories/BandTie.v", "theories/DtwProps.v", "theories/Bounds.v", "theories/PyDistProofs.v",
+             "theories/PyDistPrune.v", "props/C10.v"]
 THEOREMS = [("DVProps.C10", "C10_identity"), ("DVProps.C10", "C10_nonneg"), ("DVProps.C10", "C10_symmetry"),
-            ("DVProps.C10", "C10_monotone"), ("DVProps.C10", "C10_window1_is_euclidean")]
+            ("DVProps.C10", "C10_monotone"), ("DVProps.C10", "C10_window1_is_euclidean"),
+            ("DVProps.C10", "C10_code_nonneg"), ("DVProps.C10", "C10_code_identity"),
+            ("DVProps.C10", "C10_code_symmetry"), ("DVProps.C10", "C10_code_pruning_transparent")]
 TRUSTED_BASE = [
     "Coq 8.16.1 kernel (no native_compute)",
     "tools/translate_py.py (band expressions regenerated; BandTie.v)",
